@@ -14,7 +14,9 @@
 (*   nn     number of challenges issued on the connection so far (nonce k of c = <<c,k>>)      *)
 (*   idx    ClientRegistry.clientIDMap (by connection id; "none" = no entry)                   *)
 (*   ord    registered control connections by ControlConnection.CreatedAt (oldest first)        *)
-(*   issued clients that exist   expired  clients whose credentials expired                    *)
+(*   issued clients that exist   expired  clients whose stored expiry date lies in the past     *)
+(*   bound  clients bound to a user (Service.BindToUser; binding clears the expiry date, a      *)
+(*          later ExtendExpiration can set one again: expiry applies to both kinds of client)   *)
 (*   banned / black   addresses banned by the brute-force protector / blacklisted (every      *)
 (*          connection has its own remote address)    fails  failures recorded per address     *)
 (* Ghost state: proved (per connection: identities issued or proven on it), ctl (connections   *)
@@ -320,12 +322,15 @@ Blacklist(c) == /\ "Blacklist" \in Ops /\ Go /\ c \in st.sess /\ c \notin st.bla
 Expire(X) == /\ "Expire" \in Ops /\ Go /\ X \in st.issued /\ X \notin st.expired
              /\ LET t == [st EXCEPT !.expired = @ \cup {X}] IN st' = t /\ Record([op |-> "Expire", id |-> X], t)
              /\ UNCHANGED <<pc, proved, ctl, used, gv, dev>>
+Bind(X) == /\ "Bind" \in Ops /\ Go /\ X \in st.issued /\ X \notin st.bound
+           /\ LET t == [st EXCEPT !.bound = @ \cup {X}, !.expired = @ \ {X}] IN st' = t /\ Record([op |-> "Bind", id |-> X], t)
+           /\ UNCHANGED <<pc, proved, ctl, used, gv, dev>>
 
 Init ==
   /\ st = [acc |-> IF PreAccept THEN ConnS ELSE {}, sess |-> IF PreAccept THEN ConnS ELSE {},
            tcl |-> {}, reg |-> {},
            auth |-> [c \in ConnS |-> None], pend |-> [c \in ConnS |-> 0], nn |-> [c \in ConnS |-> 0],
-           idx |-> [X \in ClientS |-> None], issued |-> {}, expired |-> {}, banned |-> {}, black |-> {},
+           idx |-> [X \in ClientS |-> None], issued |-> {}, expired |-> {}, bound |-> {}, banned |-> {}, black |-> {},
            fails |-> [c \in ConnS |-> 0], ord |-> <<>>]
   /\ pc = [c \in ConnS |-> "idle"]
   /\ proved = [c \in ConnS |-> {}] /\ ctl = {} /\ used = {} /\ gv = {} /\ dev = {} /\ hist = <<>>
@@ -341,7 +346,7 @@ Next == \/ Accept
                             \/ SEvict(c) \/ SUpd(c) \/ SUpdLookup(c) \/ SUpdWrite(c)
                             \/ Close(c) \/ Heartbeat(c) \/ Unregister(c) \/ Ban(c) \/ Blacklist(c)
         \/ SReap
-        \/ \E X \in ClientS : Expire(X) \/ \E n \in ConnS \cup {None} : Kick(X, n)
+        \/ \E X \in ClientS : Expire(X) \/ Bind(X) \/ \E n \in ConnS \cup {None} : Kick(X, n)
         \/ \E S \in SUBSET ConnS : Tick(S)
 Spec == Init /\ [][Next]_vars
 
